@@ -81,6 +81,8 @@ class Check:
         self.exhaustive = False
         self.extra: dict = {}
         self.known = load_known(prop_id)
+        from . import gen
+        gen.ORDER_RNG = random.Random(f"order:{prop_id}:{seed}")
 
     # ------------------------------------------------------------------ running cases
     def count(self, key: str, n: int = 1):
@@ -190,6 +192,7 @@ class Check:
     # ------------------------------------------------------------------ finish
     def finish(self, proof: dict, rule: str, trusted_base: list[str], assumptions: list[str], theorems_tied: list[str]) -> int:
         wall = time.time() - self.t0
+        VERIF = _out_root()
         os.makedirs(os.path.join(VERIF, "evidence"), exist_ok=True)
         os.makedirs(os.path.join(VERIF, "replays"), exist_ok=True)
         rc = 0
@@ -253,6 +256,18 @@ class Check:
               f"{self.evaluations} cases, {len(self.nontrivial)} distinct non-trivial, {self.mismatch_total} mismatches, "
               f"{len(self.violations)} violations, {wall:.1f}s", file=sys.stderr if rc == 0 else sys.stdout)
         return rc
+
+
+def _out_root() -> str:
+    """evidence/ and replays/ live in /verif when the check judges /repo; a run pointed at another checkout (CCT_REPO: tools/try_mutant.py, try_harmless.py)
+    writes them to a scratch directory instead, so that committed evidence only ever comes from /repo itself"""
+    repo = os.environ.get("CCT_REPO")
+    if os.environ.get("VERIF_OUT"):
+        return os.environ["VERIF_OUT"]
+    if repo and os.path.realpath(repo) != os.path.realpath("/repo"):
+        import tempfile
+        return os.path.join(tempfile.gettempdir(), "cctv-out", os.path.basename(os.path.normpath(repo)))
+    return VERIF
 
 
 def _jsonable(x):
